@@ -4,7 +4,7 @@ sign, or a signed decimal) is read back by getExitCode as the same 32-bit word.
 -/
 import LA.Proofs.Num
 import LA.Model.Rule
-import LA.Props.C20
+import LA.Proofs.TablesRT
 
 namespace LA.Rule
 open LA
